@@ -25,12 +25,14 @@
 (*   big  : k-means family on data large enough for the loops to be split  *)
 (*          into many pieces, full thread plan                             *)
 (***************************************************************************)
-EXTENDS Naturals, Sequences, FiniteSets, TLC, Json
+EXTENDS Integers, Sequences, FiniteSets, TLC, Json
 
 CONSTANTS MaxLatN,     \* tie family: 2..MaxLatN rows
           MaxX,        \* x in 0..MaxX ; z in 0..1
           MaxL,        \* labels 0..MaxL
-          Seeds,       \* seeds for the seeded estimators
+          Seeds,       \* seeds for the seeded estimators: ordinary values AND the special ones 0, 1, -1
+                       \* (-1 = u64::MAX / usize::MAX in the harness): a legal seed is a legal seed
+          SeedsBig,    \* the (smaller) grid for the expensive hook / hookbig / big families
           Tier         \* "quick" | "thorough": selects the generated data sets below
 
 VARIABLE case
@@ -150,6 +152,7 @@ HookEsts == {e \in Catalogue : e[1] \in {"kmeans", "kmeans_incr"}}
 BigEsts  == {e \in Catalogue : e[3]}
 
 SeedsOf(e) == IF e[4] THEN Seeds ELSE {7}
+SeedsBigOf(e) == IF e[4] THEN SeedsBig ELSE {7}
 
 \* ---- builder histories: the same final hyper-parameters reached through different histories of the
 \* parameter object (harness: mod est_builder).  The history is part of the environment of a run.
@@ -168,7 +171,8 @@ PlanBuilder == << <<1, 2>>, <<3, 1>> >>
 
 MkH(fam, e, data, seed, k, plan, np, hook, hists) ==
   [kind |-> fam,
-   inp |-> [est |-> e[1], var |-> e[2], data |-> data, seed |-> seed, k |-> k,
+   \* (TLC configuration files have no negative literals: 2147483647 in a seed grid stands for -1)
+   inp |-> [est |-> e[1], var |-> e[2], data |-> data, seed |-> IF seed = 2147483647 THEN -1 ELSE seed, k |-> k,
             minpts |-> 2, tol4 |-> 15000, depth |-> 5,
             iters |-> IF hook THEN 3 ELSE 6, runs |-> IF hook THEN 1 ELSE 2,   \* k-means budgets (hooked runs are logged row by row)
             plan |-> plan, nproc |-> np, hook |-> hook, hists |-> hists]]
@@ -186,11 +190,11 @@ Init ==
         case = Mk("blob", e, Blob(b), sd, 3, IF e[3] THEN PlanFull ELSE PlanSeq, 2, FALSE)
   \/ \E e \in BuilderEsts, b \in BuilderSets : \E sd \in SeedsOf(e) :
         case = MkH("builder", e, Blob(b), sd, 3, PlanBuilder, 2, FALSE, AllHists)
-  \/ \E e \in HookEsts, b \in HookSets : \E sd \in SeedsOf(e) :
+  \/ \E e \in HookEsts, b \in HookSets : \E sd \in SeedsBigOf(e) :
         case = Mk("hook", e, Blob(b), sd, 3, PlanFull, 2, TRUE)
-  \/ \E e \in HookEsts, b \in HookBigSets : \E sd \in SeedsOf(e) :
+  \/ \E e \in HookEsts, b \in HookBigSets : \E sd \in SeedsBigOf(e) :
         case = Mk("hookbig", e, Blob(b), sd, 3, PlanBig, 2, TRUE)
-  \/ \E e \in BigEsts, b \in BigSets : \E sd \in SeedsOf(e) :
+  \/ \E e \in BigEsts, b \in BigSets : \E sd \in SeedsBigOf(e) :
         case = Mk("big", e, Blob(b), sd, 4, PlanBig, 2, FALSE)
 
 Next == UNCHANGED case
